@@ -5,6 +5,52 @@ import numpy as np
 from .dispatchmon import check_firing, describe_firing, get_monitor, innermost_culprits
 
 
+def bound_name_occurrences(ir, acc=None):
+    """multiset of names bound at binder nodes of an IR (by occurrence)"""
+    import collections
+
+    if acc is None:
+        acc = collections.Counter()
+    if isinstance(ir, tuple) and ir and isinstance(ir[0], str):
+        k = ir[0]
+        if k == "red":
+            acc.update(n for n, d in ir[3])
+        elif k == "contr":
+            acc.update(n for n, d in ir[3])
+        elif k == "integ":
+            acc.update(n for n, d in ir[3])
+        elif k == "lam":
+            acc[ir[1]] += 1
+        elif k == "cat":
+            acc[ir[3]] += 1
+        elif k == "indep":
+            acc[ir[3]] += 1
+            acc[ir[4]] += 1
+        elif k == "ten":
+            return acc
+        for c in ir[1:]:
+            bound_name_occurrences(c, acc)
+    elif isinstance(ir, tuple):
+        for c in ir:
+            bound_name_occurrences(c, acc)
+    return acc
+
+
+def firing_tags(f):
+    """mechanism predicates over a firing's arguments (used to key known findings narrowly)"""
+    from .lift import lift_call
+
+    tags = []
+    try:
+        lhs = lift_call(f.cls, f.args)
+        occ = bound_name_occurrences(lhs)
+        if any(c > 1 and "__BOUND" in n for n, c in occ.items()):
+            tags.append("dup-binder")
+    except Exception:
+        pass
+    return tags
+
+
 class Triage:
     def __init__(self):
         self.culprits = []       # rule names (innermost failing firings), in firing order, de-duplicated
@@ -46,6 +92,9 @@ def localise(run_fn, rng=None, max_firings=3000):
             from funsor.typing import get_origin
 
             name = "%s.eager_subs" % get_origin(fs[i].cls).__name__
+        tags = firing_tags(fs[i])
+        if tags:
+            name = name + "+" + "+".join(tags)
         if name not in t.culprits:
             t.culprits.append(name)
             t.descriptions.append("%s -- %s" % (describe_firing(fs[i], 400), verdicts[i].detail))
